@@ -230,7 +230,14 @@ Definition indexes_ok (m : modspec) : bool :=
    (module, function, kind, detail).  ExportGenesis must list whole collections: anything that
    pages, limits, slices or bounds an iteration has to be justified here before the coverage
    theorem holds again. *)
-Definition reviewed_genesis_sites : list (string * string * string * string) := [].
+Definition reviewed_genesis_sites : list (string * string * string * string) := [
+  (* x/liquiditypool InitGenesis parses AccumulatorPosition.NumShares and SetAccumulatorPosition
+     writes LegacyDec.String() of it back: the identity on every stored value, because the only
+     writer of that field is the same String() (harness/c19/images.go replays exactly this call
+     for every accumulator position of every observed state, so a value on which
+     parse-then-print is not the identity is a correspondence break) *)
+  ("liquiditypool", "InitGenesis", "value-rewrite", "call of math.LegacyNewDecFromStr")
+]%string.
 Definition site_reviewed (g : gen_site) : bool :=
   existsb (fun r => match r with (m, f, k, d) =>
      String.eqb m (gs_module g) && String.eqb f (gs_func g) && String.eqb k (gs_kind g) && String.eqb d (gs_detail g) end)
